@@ -135,8 +135,31 @@ func seq(hists [][]string) {
 		first := map[string][]byte{}
 		firstDump := map[string][]byte{}
 		before := map[string]snapshot{}
+		content := map[string]int{} // which policy the value currently holds (X exchanges the exported fields of the two values)
+		get := func(id string) *seccomp.Policy {
+			p, ok := pols[id]
+			if !ok {
+				k := 0
+				fmt.Sscanf(id, "%d", &k)
+				np := basePolicy(k)
+				p = &np
+				pols[id] = p
+				content[id] = k
+				before[id] = snap(p)
+			}
+			return p
+		}
 		for si, op := range h {
 			kind, id := op[:1], op[1:]
+			if kind == "X" {
+				// the caller rewrites its own values: each now equals what the other was
+				p0, p1 := get("0"), get("1")
+				p0.DefaultAction, p1.DefaultAction = p1.DefaultAction, p0.DefaultAction
+				p0.Syscalls, p1.Syscalls = p1.Syscalls, p0.Syscalls
+				content["0"], content["1"] = content["1"], content["0"]
+				before["0"], before["1"] = snap(p0), snap(p1)
+				continue
+			}
 			if kind == "G" {
 				a, err := arch.GetInfo("")
 				if err != nil || a == nil {
@@ -148,15 +171,8 @@ func seq(hists [][]string) {
 				textForms(func(s string) { violate("history %d step %d: %s", hi, si, s) })
 				continue
 			}
-			p, ok := pols[id]
-			if !ok {
-				k := 0
-				fmt.Sscanf(id, "%d", &k)
-				np := basePolicy(k)
-				p = &np
-				pols[id] = p
-				before[id] = snap(p)
-			}
+			p := get(id)
+			key := fmt.Sprint(content[id])
 			var out []byte
 			var err error
 			if kind == "A" {
@@ -173,16 +189,14 @@ func seq(hists [][]string) {
 			if kind == "D" {
 				ref = firstDump
 			}
-			if prev, ok := ref[id]; ok {
+			if prev, ok := ref[key]; ok {
 				if !bytes.Equal(prev, out) {
 					violate("history %d (%v) step %d: %s of an equal policy gave a different result than before", hi, h, si, op)
 				}
 			} else {
-				ref[id] = out
+				ref[key] = out
 				// a fresh, equal policy value compiles to the same bytes
-				k := 0
-				fmt.Sscanf(id, "%d", &k)
-				fresh := basePolicy(k)
+				fresh := basePolicy(content[id])
 				var o2 []byte
 				if kind == "A" {
 					o2, _ = compileBytes(&fresh)
